@@ -2,6 +2,7 @@ package bpf
 
 import (
 	"fmt"
+	"slices"
 	"strings"
 	"testing"
 
@@ -21,6 +22,11 @@ import (
 //          machine state over the same set, every packet length 0..6)
 //   flow:  every program of <= 3 (thorough: 4) instructions over a 40-element
 //          jump-heavy alphabet + a final return, on every packet length 0..6
+//   long:  long programs [ld #a; ldx #x; sled; JUMP; ret #index ...] in which
+//          the verdict names the slot a jump landed on; ja with its 32-bit skip
+//          on both sides of every field-width boundary (8/9/16/17 bits), jt/jf
+//          up to 255, jump placed at a low and at a > 255 index, landing on /
+//          next to / far from / one past the last instruction
 
 // ---------------------------------------------------------------------------
 // Reference interpreter over raw instructions. Numeric opcodes as in bpf(4) /
@@ -48,7 +54,7 @@ func c49RefRun(prog []RawInstruction, pkt []byte) c49RefResult {
 	}
 	pc := 0
 	for steps := 0; ; steps++ {
-		if steps > 10000 {
+		if steps > 10000+len(prog) { // jumps are forward only: a run takes at most len(prog) steps
 			return c49RefResult{undef: "does-not-terminate"}
 		}
 		if pc < 0 || pc >= len(prog) {
@@ -240,19 +246,47 @@ func c49Pkt(n int) []byte {
 	return p[:n:n]
 }
 
+func c49InsString(in Instruction) string {
+	if s, ok := in.(fmt.Stringer); ok {
+		return s.String()
+	}
+	return fmt.Sprintf("%#v", in)
+}
+
+// c49ProgString renders a program; runs of more than 4 instructions of one Go
+// type (the sleds and return tables of the long part) are abbreviated to their
+// first and last element with the index range.
 func c49ProgString(p []Instruction) string {
 	var sb strings.Builder
-	for i, in := range p {
+	for i := 0; i < len(p); {
+		j := i + 1
+		for j < len(p) && fmt.Sprintf("%T", p[j]) == fmt.Sprintf("%T", p[i]) {
+			j++
+		}
 		if i > 0 {
 			sb.WriteString("; ")
 		}
-		if s, ok := in.(fmt.Stringer); ok {
-			sb.WriteString(s.String())
-		} else {
-			fmt.Fprintf(&sb, "%#v", in)
+		if j-i > 4 {
+			fmt.Fprintf(&sb, "{[%d] %s ... [%d] %s: %d instructions of this kind}", i, c49InsString(p[i]), j-1, c49InsString(p[j-1]), j-i)
+			i = j
+			continue
 		}
+		if len(p) > 16 {
+			fmt.Fprintf(&sb, "[%d] ", i)
+		}
+		sb.WriteString(c49InsString(p[i]))
+		i++
 	}
 	return sb.String()
+}
+
+// c49RawString renders an assembled program, long ones by length only (their
+// typed form above determines them).
+func c49RawString(raw []RawInstruction) string {
+	if len(raw) > 16 {
+		return fmt.Sprintf("(%d raw instructions)", len(raw))
+	}
+	return fmt.Sprintf("%+v", raw)
 }
 
 // c49Check runs one program on one packet through the VM and the reference.
@@ -278,7 +312,7 @@ func c49Check(w *vx.W, prog []Instruction, pktLen int, kind string) {
 		kind = "flow"
 	}
 	if ref.undef != "" {
-		w.Failf("C49/newvm/accepted-program-reaches-undefined:"+ref.undef, "NewVM accepted [%s] (raw %+v); on packet %x the reference interpreter reaches %s", c49ProgString(prog), raw, pkt, ref.undef)
+		w.Failf("C49/newvm/accepted-program-reaches-undefined:"+ref.undef, "NewVM accepted [%s] (raw %s); on packet %x the reference interpreter reaches %s", c49ProgString(prog), c49RawString(raw), pkt, ref.undef)
 		return
 	}
 	got, err := vm.Run(pkt)
@@ -287,7 +321,7 @@ func c49Check(w *vx.W, prog []Instruction, pktLen int, kind string) {
 		return
 	}
 	if got != int(ref.verdict) {
-		w.Failf("C49/run/verdict-differs:"+kind, "Run([%s], packet %x) = %d, reference classic-BPF interpreter over the assembled program %+v returns %d", c49ProgString(prog), pkt, got, raw, ref.verdict)
+		w.Failf("C49/run/verdict-differs:"+kind, "Run([%s], packet %x) = %d, reference classic-BPF interpreter over the assembled program %s returns %d", c49ProgString(prog), pkt, got, c49RawString(raw), ref.verdict)
 		return
 	}
 	w.Nontrivial()
@@ -453,6 +487,55 @@ func (f c49Flow) prog() []Instruction {
 	return append(p, RetConstant{Val: 9})
 }
 
+// ---------------------------------------------------------------------------
+// long part: programs long enough for every width of a jump displacement
+//
+//   [0] ld #a; [1] ldx #x; [2..2+sled) st M[3] (no-ops for the verdict);
+//   [P] JUMP; [P+1..N) ret #index
+//
+// so the verdict is the index of the slot the jump landed on. N is derived:
+// the farthest target of JUMP is followed by Tail more slots; Tail = -1 puts
+// that target one past the end (NewVM must reject, or the reference leaves the
+// program), Tail = 0 makes it the last instruction (the largest skip NewVM
+// accepts at that position).
+
+type c49Long struct {
+	A    uint32   `json:"a"`
+	X    uint32   `json:"x"`
+	Sled int      `json:"sled"`
+	Ins  c48Typed `json:"jump"`
+	Tail int      `json:"slots_after_farthest_target"`
+	// Over, if non-zero, replaces ja's skip after the program has been laid
+	// out for Ins.Val: a displacement far beyond the program.
+	Over uint32 `json:"ja_skip_instead,omitempty"`
+}
+
+func (l c49Long) far() int {
+	if l.Ins.Kind == "Jump" {
+		return int(l.Ins.Val)
+	}
+	return int(max(l.Ins.ST, l.Ins.SF))
+}
+
+func (l c49Long) prog() []Instruction {
+	pos := 2 + l.Sled
+	n := pos + 1 + l.far() + 1 + l.Tail
+	p := make([]Instruction, 0, n)
+	p = append(p, LoadConstant{Dst: RegA, Val: l.A}, LoadConstant{Dst: RegX, Val: l.X})
+	for i := 0; i < l.Sled; i++ {
+		p = append(p, StoreScratch{Src: RegA, N: 3})
+	}
+	if l.Over != 0 {
+		p = append(p, Jump{Skip: l.Over})
+	} else {
+		p = append(p, l.Ins.build())
+	}
+	for i := pos + 1; i < n; i++ {
+		p = append(p, RetConstant{Val: uint32(i)})
+	}
+	return p
+}
+
 func TestVerif_C49(t *testing.T) {
 	vx.Run(t, "C49", func(c *vx.Ctx) {
 		d := []uint32{0, 1, 2, 31, 32, 33, 0x7fffffff, 0x80000000, 0xffffffff}
@@ -462,6 +545,20 @@ func TestVerif_C49(t *testing.T) {
 		const maxLen = 6
 		c.Rule(fmt.Sprintf("step: program [ld #m; st M[s]; ld #a; ldx #x; INS; observer] for every a, x in D=%#x, (s,m) in {(0,0),(0,0xdead0001),(15,0xbeef000f)}, every implemented instruction INS (10 ALU ops with X and with every constant in D; 8 jump tests x skips {0..3}^2 with X and with every constant in D followed by four distinct returns; ja 0..3; ld/ldh/ldb absolute and indirect and ldx msh at every offset in {0,1,len-4..len+1 for each len, 0x7fffffff, 0xffffefff}; ld/ldx # and M[0,1,15]; st/stx M[0,1,15]; ld #len; tax; txa; ret a; ret #k), every observer (A, X, M[0], M[15], M[1]; jumps: landing pad), every packet length 0..%d. non-trivial = NewVM accepted the program and Run's verdict was compared with the reference interpreter's verdict over the assembled program", d, maxLen))
 		c.Rule(fmt.Sprintf("flow: every sequence of <= %d instructions over a %d-element alphabet (4 ja, 16 conditional jumps covering all 8 tests and flipped encodings, loads that go out of bounds on short packets, div x, stores/loads, both returns) followed by ret a / ret #9, on every packet length 0..%d; programs NewVM rejects (jump past the end) are trivial", vx.Pick(c, 3, 4), len(c49Alphabet), maxLen))
+		// long part bounds
+		jaSkips := []uint32{0, 1, 127, 128, 254, 255, 256, 257, 300, 511, 512, 513, 32767, 32768, 65535, 65536, 65537}
+		condSkips := []uint8{0, 1, 254, 255}
+		longSleds := []int{0, 1, 257}
+		longTails := []int{-1, 0, 1, 300}
+		if !c.Quick() {
+			jaSkips = append(jaSkips, 2, 3, 129, 253, 258, 510, 1023, 1024, 4093, 4094, 4095, 4096, 16383, 16384, 65534, 65538, 131071, 131072)
+			condSkips = []uint8{0, 1, 2, 127, 128, 129, 253, 254, 255}
+			longSleds = append(longSleds, 254, 255, 256, 4096)
+			longTails = append(longTails, 2, 255, 256)
+		}
+		// skips no program of these sizes can satisfy: NewVM must reject them
+		jaHuge := []uint32{0x7fffffff, 0x80000000, 0xffffff00, 0xffffffff}
+		c.Rule(fmt.Sprintf("long: program [ld #a; ldx #x; st M[3] x sled; JUMP; ret #index for every later index] whose verdict is the index of the slot JUMP landed on; program length = index of JUMP's farthest target + 1 + tail, tail = -1 puts that target one past the end (expected: NewVM rejects), 0 makes it the last instruction; sled in %v, tail in %v; JUMP = ja with every skip in %v (both sides of the 8-, 9-, 15/16- and 17-bit boundaries; programs of up to %d instructions), or jeq/jne/jgt/jlt/jge/jle/jset/jnset (8 tests) against #5 and against x=5 with every (jt, jf) in %v^2 and a in {2,5,8} (each test true and false); plus ja with skip in %#x at tail 0 sized as for skip 0 and 300 (must be rejected); packet length 3", longSleds, longTails, jaSkips, 2+slices.Max(longSleds)+1+int(slices.Max(jaSkips))+1+slices.Max(longTails), condSkips, jaHuge))
 		c.Assume("excluded (the property text does not fix them): NegateA, undefined ALU operators and jump tests, RawInstruction elements, extensions other than ExtLen (NewVM rejects them), absolute loads at offsets >= 0xfffff000 (the kernel's ancillary window), indirect loads whose X+k carries out of 32 bits")
 		c.Assume("packet contents are one fixed byte pattern per length (distinct bytes, distinct low nibbles); the VM never branches on packet bytes except through A/X, whose boundary values are enumerated directly")
 		c.Assume("beyond the statement, a program NewVM accepts must not drive the reference interpreter outside the program, to a scratch slot > 15 or to a constant division by zero (the classic validator's conditions); this cannot fire while NewVM validates jumps, slots and constant divisors")
@@ -521,6 +618,42 @@ func TestVerif_C49(t *testing.T) {
 			c49Check(w, s.prog(), s.Len, s.Ins.Kind)
 		})
 
+		vx.Enumerate(c, "long", vx.Opts{}, func(yield func(c49Long) bool) {
+			for _, sled := range longSleds {
+				for _, tail := range longTails {
+					for _, k := range jaSkips {
+						if !yield(c49Long{A: 5, X: 5, Sled: sled, Ins: c48Typed{Kind: "Jump", Val: k}, Tail: tail}) {
+							return
+						}
+					}
+					if tail == 0 {
+						for _, size := range []uint32{0, 300} {
+							for _, k := range jaHuge {
+								if !yield(c49Long{A: 5, X: 5, Sled: sled, Ins: c48Typed{Kind: "Jump", Val: size}, Tail: tail, Over: k}) {
+									return
+								}
+							}
+						}
+					}
+					for cd := uint16(0); cd < 8; cd++ {
+						for _, st := range condSkips {
+							for _, sf := range condSkips {
+								for _, a := range []uint32{2, 5, 8} {
+									if !yield(c49Long{A: a, X: 5, Sled: sled, Ins: c48Typed{Kind: "JumpIf", Cond: cd, Val: 5, ST: st, SF: sf}, Tail: tail}) {
+										return
+									}
+									if !yield(c49Long{A: a, X: 5, Sled: sled, Ins: c48Typed{Kind: "JumpIfX", Cond: cd, ST: st, SF: sf}, Tail: tail}) {
+										return
+									}
+								}
+							}
+						}
+					}
+				}
+			}
+		}, func(w *vx.W, l c49Long) {
+			c49Check(w, l.prog(), 3, "long-"+l.Ins.Kind)
+		})
 		depth := vx.Pick(c, 3, 4)
 		idx := make([]int, len(c49Alphabet))
 		for i := range idx {
